@@ -109,8 +109,15 @@ func runAgent(msgs []string) {
 							}
 						}
 						stream := replyStream(buf[0], s.isUDP)
+						// written from one scratch buffer that is overwritten as soon as Write has returned (as a
+						// service with a single output buffer does): what was written must already be safe
+						scratch := make([]byte, len(stream))
 						for _, k := range replyPlan(buf[0], s.isUDP) {
-							c.Write(stream[:k])
+							copy(scratch, stream[:k])
+							c.Write(scratch[:k])
+							for i := 0; i < k; i++ {
+								scratch[i] = 0xee
+							}
 							stream = stream[k:]
 						}
 					}
